@@ -9,8 +9,9 @@
      gen/Formulas.v   W_setFractions, W_Add, W_ToAffine (C14's unit, read only)
    Hand-written here: the record that bundles a suite, hash_to_field's use of the base-field
    modulus (model/CurveParams.v, tied by C14), the hash's (b, s) sizes passed in by the harness,
-   and cofactor clearing for BLS12-381 G1 (multiplication by h_eff = 1 - z with the affine
-   chord-tangent law of model/Curve.v). *)
+   and cofactor clearing for BLS12-381 G1 (multiplication by the regenerated scalar X+1 with the
+   affine chord-tangent law of model/Curve.v); for edwards25519 three applications of the
+   regenerated E_Double. *)
 From Coq Require Import List NArith ZArith Bool.
 Import ListNotations.
 Require Import V.base.Bytes V.base.Fld V.gen.Expanders V.gen.Mappers V.gen.Formulas.
@@ -28,7 +29,7 @@ Record wsuite := mk_wsuite {
   ws_sgn0 : Z -> bool;
   ws_xnum : list Z; ws_xden : list Z; ws_ynum : list Z; ws_yden : list Z;
   ws_cof : cofactor_kind;
-  ws_heff : Z                 (* only read when ws_cof = Cofactor_other *)
+  ws_heff : Z                 (* only read when ws_cof = Cofactor_scalar *)
 }.
 
 Definition k256_suite : wsuite := {|
@@ -45,14 +46,15 @@ Definition p256_suite : wsuite := {|
   ws_xnum := []; ws_xden := []; ws_ynum := []; ws_yden := [];
   ws_cof := p256_clear_cofactor; ws_heff := 1 |}.
 
-(* h_eff of RFC 9380 §8.8.1 = 1 - z = X + 1 of g1_params.go (X = 0xd201000000010000, z = -X) *)
+(* ClearCofactor of g1_params.go multiplies by X + 1 (= h_eff of RFC 9380 §8.8.1 = 1 - z, z = -X);
+   the scalar is regenerated (gen/Mappers.v bls12381g1_cofactor_scalar) *)
 Definition bls12381g1_suite : wsuite := {|
   ws_curve := bls12381g1_params; ws_L := bls12381g1_L; ws_expander := bls12381g1_expander;
   ws_kind := bls12381g1_mapper_kind;
   ws_mulA := bls12381g1_MulByA; ws_mulB := bls12381g1_MulByB; ws_Z := bls12381g1_SetZ;
   ws_sqrt := bls12381g1_SqrtRatio; ws_sgn0 := bls12381g1_Sgn0;
   ws_xnum := bls12381g1_XNum; ws_xden := bls12381g1_XDen; ws_ynum := bls12381g1_YNum; ws_yden := bls12381g1_YDen;
-  ws_cof := bls12381g1_clear_cofactor; ws_heff := 0xd201000000010001 |}.
+  ws_cof := bls12381g1_clear_cofactor; ws_heff := bls12381g1_cofactor_scalar |}.
 
 Section Suite.
   Variable H : bytes -> bytes.          (* the suite's hash (a recorded table in the driver) *)
@@ -95,11 +97,12 @@ Section Suite.
   Definition ws_clear (P : Z * Z * Z) : Z * Z * Z :=
     match ws_cof s with
     | Cofactor_identity => P
-    | Cofactor_other =>
+    | Cofactor_scalar =>
         match waff_mul K (wp_a (ws_curve s)) (ws_heff s) (ws_to_affine P) with
         | Some (x, y) => (x, y, 1 mod p)%Z
         | None => (0, 1 mod p, 0)%Z
         end
+    | _ => (0, 0, 0)%Z      (* a shape the translator did not recognise: no valid point, every comparison fails *)
     end.
 
   (* the Hash method of weierstrass.go through the generated wiring W_Hash.
@@ -125,3 +128,62 @@ Section Suite.
   Definition ws_in_subgroup (P : @wpoint Z) : bool :=
     match w_mul (ws_curve s) (wp_n (ws_curve s)) P with None => true | Some _ => false end.
 End Suite.
+
+(* ---- edwards25519_XMD:SHA-512_ELL2_RO_ ------------------------------------------------------- *)
+Section EdSuite.
+  Variable H : bytes -> bytes.
+  Variables b_in_bytes s_in_bytes : N.
+
+  Let c := ed25519_params.
+  Let p := ep_p c.
+  Let K := Zp p.
+
+  Definition ed_h2f (scalar : bool) (count : N) (dst msg : bytes) : option (list Z) :=
+    let q := if scalar then ep_n c else p in
+    option_map (map (fun e => Z.of_N (nth 0 e 0%N)))
+      (hash_to_field (expand_message_xmd H b_in_bytes s_in_bytes) (Z.to_N q) edwards25519_L 1 count dst msg).
+
+  (* Edwards25519PointMapper.Map followed by setFractions: extended coordinates (X, Y, T, Z) *)
+  Definition ed_map (u : Z) : Z * Z * Z * Z :=
+    let '(xn, xd, yn, yd) :=
+      match edwards25519_mapper_kind with
+      | elligator2_Edwards25519PointMapper =>
+          mapToCurveElligator2Edwards25519 K curve25519Elligator2C2Limbs_value curve25519Elligator2C3Limbs_value
+            curve25519Elligator2JLimbs_value edwards25519Elligator2C1Limbs_value Z.odd u
+      | _ => (0, 0, 0, 0)%Z
+      end in
+    E_setFractions K xn xd yn yd.
+
+  Definition ed_add (P Q : Z * Z * Z * Z) : Z * Z * Z * Z :=
+    let '(x1, y1, t1, z1) := P in let '(x2, y2, t2, z2) := Q in
+    E_Add K (ep_a c) (ep_d c) x1 y1 t1 z1 x2 y2 t2 z2.
+
+  Definition ed_double (P : Z * Z * Z * Z) : Z * Z * Z * Z :=
+    let '(x1, y1, t1, z1) := P in E_Double K (ep_a c) x1 y1 t1 z1.
+
+  Definition ed_clear (P : Z * Z * Z * Z) : Z * Z * Z * Z :=
+    match edwards25519_clear_cofactor with
+    | Cofactor_double3 => ed_double (ed_double (ed_double P))
+    | Cofactor_identity => P
+    | _ => (0, 0, 0, 0)%Z
+    end.
+
+  Definition ed_to_affine (P : Z * Z * Z * Z) : option (Z * Z) :=
+    let '(X, Y, _, Zc) := P in
+    let '(ok, x, y) := E_ToAffine K 0%Z 0%Z X Y Zc in
+    if ok then Some (x, y) else None.
+
+  Definition ed_hash_to_curve (dst msg : bytes) : option (option (Z * Z)) :=
+    match ed_h2f false 2 dst msg with
+    | None => None
+    | Some _ =>
+        Some (ed_to_affine
+          (E_Hash (fun cn d m => match ed_h2f false cn d m with Some l => l | None => [] end)
+                  ed_map ed_add ed_clear 0%Z dst msg))
+    end.
+
+  Definition ed_on_curve (P : option (Z * Z)) : bool :=
+    match P with Some Q => e_on_curve c Q | None => false end.
+  Definition ed_in_subgroup (P : option (Z * Z)) : bool :=
+    match P with Some Q => e_eqb c (e_mul c (ep_n c) Q) (eaff_zero (Zp p)) | None => false end.
+End EdSuite.
